@@ -121,8 +121,29 @@ def decSect (f : String) : Option Sect :=
       | _, _ => none) (some [])).map .list
   | _ => none
 
+def decCfgs : List String → Option (List Cfg)
+  | [] => some []
+  | f :: c :: k :: rest =>
+    match decStrs "," f, decStrs "," c, decStrs "," k, decCfgs rest with
+    | some f, some c, some k, some r => some (⟨f, c, k⟩ :: r)
+    | _, _, _, _ => none
+  | _ => none
+
+def showProc (p : Proc) : String :=
+  encList (p.files.map encStr) ++ " " ++ encList (p.commands.map encStr) ++ " " ++ encList (p.disabled.map encStr)
+
+/-- the state after each collect() of a history, one after the other -/
+def histStates (isSpec isComp : Str → Bool) : Proc → List Cfg → List Proc
+  | _, [] => []
+  | st, c :: cs => let st' := collectStep isSpec isComp st c; st' :: histStates isSpec isComp st' cs
+
 def handle (fs : List String) : String :=
   match fs with
+  | "hist" :: specs :: known :: rest =>
+    match decStrs "," specs, decStrs "," known, decCfgs rest with
+    | some specs, some known, some cfgs =>
+      "|".intercalate ((histStates (fun s => specs.contains s) (fun s => known.contains s) {} cfgs).map showProc)
+    | _, _, _ => "bad-op"
   | ["vchk", kind, found, host, filterable, hasFilters, cand, deny, contained, readable] =>
     match decBool found, decBool host, decBool filterable, decBool hasFilters, decStr cand, decStrs "," deny,
           decBool contained, decBool readable with
